@@ -146,7 +146,10 @@ def tok(x):
     if x[0] == "i":
         return "i:%d" % x[1]
     if x[0] == "r":
-        return "r:%d/%d" % (x[1], x[2])
+        # dashu keeps a rational in lowest terms, and the PINNED conversion depends on the bit lengths of that reduced
+        # numerator/denominator (the exact conversions do not): the model gets what the implementation holds
+        fr = Fraction(x[1], x[2])
+        return "r:%d/%d" % (fr.numerator, fr.denominator)
     return "f:%016x" % x[1]
 
 
